@@ -816,6 +816,15 @@ class DAGRunConcurrentManager(DAGRunManagerLike):
 
             if has_errors:
                 logger.debug('The subgraph should be stopped. There is an error in %s', name)
+
+                if is_rec_result:
+                    # Nobody is going to restart the subgraph any more. Errors are kept as results only inside
+                    # a OneOf subgraph: the destination gets the error of its dependency, so that whoever waits for
+                    # the destination finds out about the error instead of waiting for the next iteration forever.
+                    self._node_storage.set_node_result(node_id, self.__get_subgraph_error(recurrent_subgraph))
+                    await self.__unlock_itself(node_id)
+                    await self.__unlock_descendants(node_id)
+
                 return
 
             if not is_rec_result and not has_errors:
